@@ -1,4 +1,5 @@
 import Driver.Util
+import RegalModel.Model.Cleanup
 import RegalModel.Model.FileProvider
 open Lean RegalModel.FileProvider
 
@@ -33,8 +34,18 @@ def renderName (n : RegalModel.FileProvider.Name) : String :=
   let b := n.stem ++ (match n.counter with | some k => "_" ++ toString k | none => "") ++ (if n.test then "_test" else "") ++ n.ext
   if n.dir = "" then b else n.dir ++ "/" ++ b
 
+def relPath (s : String) : List String := "w" :: (s.splitOn "/").filter (· ≠ "")
+
 def handle (op : String) (j : Json) : Except String Json := do
   match op with
+  | "c13.cleanup" =>
+    let files ← getStrList j "files"
+    let dirs ← getStrList j "dirs"
+    let preserve ← getStrList j "preserve"
+    let target ← getStr j "target"
+    let fs : RegalModel.Cleanup.FS := { files := files.map relPath, dirs := dirs.map relPath }
+    let res := RegalModel.Cleanup.dirCleanUpPaths fs (relPath target) (preserve.map relPath)
+    return Json.arr (res.map fun p => Json.str ("/".intercalate (p.drop 1))).toArray
   | "c13.provider" =>
     let init := (kvs ((j.getObjVal? "files").toOption.getD (Json.mkObj []))).filterMap fun (k, v) =>
       v.getStr?.toOption.map fun c => (k, c)
